@@ -13,6 +13,7 @@ c08race are supporting evidence only).
 -/
 import Verif.Lemmas.StateCacheConc
 import Verif.Lemmas.StateCacheWitness
+import Verif.Gen.StateCacheFacts
 namespace Verif.Props.C08
 open Verif.SC
 
@@ -105,6 +106,13 @@ theorem commit_serial {c : Conc K B V} {T : Tree K B V} (hI : Inv c.sc T none) (
   have h1 := holder i m hi hai
   have h2 := holder j m' hj haj
   rw [h1] at h2; cases h2; rfl
+
+/-- `commit_lock_facts` (regenerated from the Go source on every run): `StateCache.commit` holds `sc.lock` for its whole
+    body (`sc.lock.Lock(); defer sc.lock.Unlock()` are its first statements) — the model's committer takes the lock at
+    `start` and releases it at `done` — and `StateCache.Get` takes no lock — the model's readers never block. -/
+theorem commit_lock_facts :
+    Verif.Gen.StateCacheFacts.commitLocksWholeBody = true ∧ Verif.Gen.StateCacheFacts.getTakesNoLock = true := by
+  decide
 
 /-- the premise `Inv c.sc T none` is what any sequential history without eviction establishes -/
 theorem after_history {H : Type} [DecidableEq H] (capK maxDepth : Nat) (ops : List (Op H K B V))
